@@ -24,7 +24,7 @@ CharSettings ==
        {S("quote_character", Ch("literal", cp)) : cp \in {34, 39, 33, 126, 92, 44, 65}} \cup {S("quote_character", Ch("dec", 34))}
   \cup {S("escape_character", Ch("literal", cp)) : cp \in {34, 92, 39, 44}}
   \cup {S("decimal_separator", Ch("literal", cp)) : cp \in {46, 44, 59}}
-  \cup {S("thousands_separator", Ch("literal", cp)) : cp \in {46, 44, 59}} \cup {S("thousands_separator", Bad("empty"))}
+  \cup {S("thousands_separator", Ch("literal", cp)) : cp \in {46, 44, 59, 32}} \cup {S("thousands_separator", Bad("empty"))}
 NameSettings ==
        {S("line_delimiter", Nm(n)) : n \in {"lf", "cr", "crlf", "any", "none", "newline"}}
   \cup {S("encoding", Nm(n)) : n \in {"known", "unknown"}}
